@@ -4,8 +4,13 @@
 (* uid length, message length, crafted digest/stream, MaybeReadByte skew);        *)
 (* Mutate(kind) on the last signature; Verify.  Expensive operators sit in        *)
 (* actions taken from many states (New, Sign, Verify) so that TLC's workers        *)
-(* share them.  Every Sign and Verify transition emits the history so far with     *)
-(* the replies the specification computes.                                          *)
+(* share them: choosing a call (Pick) and choosing a mutation (Mutate) are cheap    *)
+(* steps of their own, each leading to a state whose only successor is the costly   *)
+(* one.  Costly values that are used more than once inside an action are bound      *)
+(* with a singleton  \E x \in {expr}  (TLC re-evaluates LET definitions and         *)
+(* operator arguments at every use inside actions: measured 85 s -> 12 s).          *)
+(* Every New, Sign and Verify transition emits the history so far with the replies   *)
+(* the specification computes.                                                      *)
 (* Shapes are enumerated (keys, routes, entries, lengths, positions, kinds);        *)
 (* contents come from Prng(Seed, ...).                                              *)
 EXTENDS Sm2KeyObj, TLC, Json
@@ -52,7 +57,8 @@ StreamFor(craft, at) == IF craft = "kbig" THEN Overlay(Stream, at, Ones32)
 (* digests chosen so that the FIRST nonce k meets a retry condition or yields an extreme r / s (see KAT_SM2): *)
 (*   r = e + x1, s = (k - r d) / (1 + d)  =>  e = r - x1,  r = (k - s (1 + d)) / d                              *)
 DigestCrafts == {"r0", "rk", "s0", "r1", "rnm1", "rshort", "s1", "snm1", "sshort"}
-Short30 == <<127>> \o Rnd(95, 29)
+(* 27 bytes, below 2^256 - n (about 2^224): n + v still fits 32 bytes, so the "plusn" replacement is an in-width value >= n *)
+Short27 == <<127>> \o Rnd(95, 26)
 Crafted(craft, dd, at) ==
   LET k == BN!Norm(SubSeq(Stream, at + 1, at + 32))
       x1 == S!Ec!Mul(k, S!G)[1]
@@ -64,10 +70,10 @@ Crafted(craft, dd, at) ==
             ELSE IF craft = "s0" THEN rOfS(<<>>)
             ELSE IF craft = "r1" THEN <<1>>
             ELSE IF craft = "rnm1" THEN S!NMinus1
-            ELSE IF craft = "rshort" THEN Short30
+            ELSE IF craft = "rshort" THEN Short27
             ELSE IF craft = "s1" THEN rOfS(<<1>>)
             ELSE IF craft = "snm1" THEN rOfS(S!NMinus1)
-            ELSE rOfS(Short30)
+            ELSE rOfS(Short27)
   IN S!F32(BN!SubMod(rt, x1, n))
 
 B2S(b) == IF b THEN "01" ELSE "00"
